@@ -130,15 +130,14 @@ def centry(e):
 HEADER = """From Coq Require Import List String Ascii Bool.
 From OdeVerif Require Import Base.Corr Model.InputCheck Gen.ReservedGen.
 Import ListNotations.
-Definition marker := list_ascii_of_string "__d"%string.
-Definition outcome_of (l : list entry) : nat :=      (* 0 = accepted, 1 = malformed-input error, 2 = some error *)
+Definition outcome_of (marker : str) (l : list entry) : nat :=      (* 0 = accepted, 1 = malformed-input error, 2 = some error *)
   fold_left (fun acc e => if Nat.eqb acc 0 then match check_entry reserved_names marker e with Malformed => 1 | NameError => 2 | Accepted _ _ => 0 end else acc) l 0.
-(* observed: 0 Ok, 1 Malformed, 2 any other error *)
-Definition agree (c : list entry * nat) : bool :=
-  match outcome_of (fst c), snd c with
+(* case: (configured derivative marker, entries), observed: 0 Ok, 1 Malformed, 2 any other error *)
+Definition agree (c : (str * list entry) * nat) : bool :=
+  match outcome_of (fst (fst c)) (snd (fst c)), snd c with
   | 0, 0 => true | 1, 1 => true | 2, 1 => true | 2, 2 => true | _, _ => false
   end.
-Definition mism (cases : list (list entry * nat)) : list nat := mism_by agree cases.
+Definition mism (cases : list ((str * list entry) * nat)) : list nat := mism_by agree cases.
 """
 
 
@@ -176,6 +175,17 @@ def run(ctx):
             e["initial_values"] = {(" " + k if rng.random() < 0.3 else k): v for k, v in items}
         cases.append(("wellformed_random", 0, [e], "Ok"))
     inds = [{"dynamics": sysl} for _, _, sysl, _ in cases]
+    # a configured derivative marker other than the default: names containing the DEFAULT marker are then ordinary names,
+    # names containing the configured one are not
+    for mk in ("__D", "_dot", "__prime", "_d"):
+        for order in (0, 1, 2, 3):
+            for nm, exp in (("g__delayed", "Ok"), ("x__dy", "Ok"), ("q__d", "Ok"), ("a" + mk + "b", "Error"), ("z" + mk, "Error")):
+                if mk in nm and exp == "Ok":
+                    continue
+                if mk == "_d" and "_d" in nm:
+                    exp = "Error"
+                cases.append(("marker_%s_name_%s_order_%d" % (mk, nm, order), 0, [base_entry(nm, order)], exp))
+                inds.append({"dynamics": [base_entry(nm, order)], "options": {"differential_order_symbol": mk}})
     # unknown option key
     cases.append(("unknown_option_key", 0, [base_entry("x", 1)], "Error"))
     inds.append({"dynamics": [base_entry("x", 1)], "options": {"no_such_option": 1}})
@@ -205,9 +215,9 @@ def run(ctx):
             probe_failures.append({"key": "validation: %s at entry %d" % (kind, pos),
                                    "what": "corruption '%s' at entry %d: analysis outcome %s, the property requires %s; input %s" % (kind, pos, o, {"Ok": "acceptance", "Malformed": "the malformed-input error", "Error": "an error"}[exp], ind),
                                    "replay": {"indict": ind, "expected": exp}})
-        if "options" not in ind:
+        if "options" not in ind or list(ind["options"]) == ["differential_order_symbol"]:
             code = 0 if o == "Ok" else (1 if o == "Malformed" else 2)
-            coq.append("(%s, %d%%nat)" % (C.clist([centry(e) for e in sysl]), code))
+            coq.append("((%s, %s), %d%%nat)" % (cstr(ind.get("options", {}).get("differential_order_symbol", "__d")), C.clist([centry(e) for e in sysl]), code))
             info.append({"indict": ind, "impl": o, "kind": kind})
     mism, errs = ([], [])
     if os.path.exists(os.path.join(C.COQ, "theories/Gen/ReservedGen.vo")):
